@@ -282,6 +282,12 @@ func (mc *machine) newTerm2(f *mfunc, b *ir.Block, s Step) ir.Terminator {
 		if s.D%2 == 0 {
 			targets = append(targets, mc.block(f, s.D))
 		}
+		if s.D%3 == 0 {
+			// a target listed twice, followed by another block (jump tables repeat
+			// their entries)
+			targets = []*ir.Block{tb, tb, mc.block(f, s.D+1), tb}
+			mc.probes["indirectbr with a repeated target"]++
+		}
 		var t *ir.TermIndirectBr
 		if viaBlock {
 			t = b.NewIndirectBr(addr, targets...)
@@ -540,7 +546,14 @@ func (mc *machine) decorateFunc(f *ir.Func, sel int) {
 		}
 		if cd == nil {
 			cd = &ir.ComdatDef{Name: name, Kind: []enum.SelectionKind{enum.SelectionKindAny, enum.SelectionKindLargest, enum.SelectionKindNoDeduplicate}[sel%3]}
-			mc.m.ComdatDefs = append(mc.m.ComdatDefs, cd)
+			if sel%5 == 3 {
+				// used but never added to m.ComdatDefs (the API does not ask for it; the
+				// printed module then lacks the definition, as written)
+				cd.Name = name + ".unregistered"
+				mc.probes["comdat used without being registered in the module"]++
+			} else {
+				mc.m.ComdatDefs = append(mc.m.ComdatDefs, cd)
+			}
 		}
 		f.Comdat = cd
 	}
